@@ -142,7 +142,8 @@ def hasHeadersFor (id : Nat) (outs : List Out) : Bool :=
 
 def openStream (m : Mon) (id : Nat) : Mon :=
   let x := m.str id
-  if x.phase = .idle then m.set id { phase := .open } else m.set id { x with wild := true }
+  if x.wild then m
+  else if x.phase = .idle then m.set id { phase := .open } else m.set id { x with wild := true }
 
 /-- The part of a control item that concerns the spec, applied before the frames of the step are judged. -/
 def Mon.pre (m : Mon) (op : Op) (outs : List Out) : Mon :=
